@@ -7,7 +7,7 @@ from props._cc import has, base_classes, same, outcome
 PROP = 'C07'
 LEVEL = 'exploration'
 RULE = ("cases = (lru/mru/lfu/rr/no x std/safe) x maxsize{1,2,3,5} x purge on/off x archive backend {dict,file pkl/json/src,dir dill/fast/z/json/src,"
-        "sqlite mem/file} x history of calls, bursts, load, dump, keyed load/dump, clear, direct archive writes of correct entries, late archive toggles; directory archives also named by a RELATIVE path with the working directory changed during the history. "
+        "sqlite mem/file} x history of calls, bursts, load, dump, keyed load/dump, clear, direct archive writes of correct entries, entries deleted from the archive by somebody else, the archive REPLACED by another one through f.archive(obj) while archiving is on, late archive toggles; directory archives also named by a RELATIVE path with the working directory changed during the history. "
         "Oracle per call with archiving on: every key in (resident_before + new) - resident_after is in the archive afterwards with the same value; "
         "archive_after is a superset of archive_before with identical values; every result ever computed and not explicitly cleared is in "
         "resident or archive. non-trivial = an eviction or purge happened with a non-null archive; distinct = (class, purge, backend, "
@@ -22,11 +22,31 @@ BACKENDS = ('cache_dict', 'cache_file_pkl', 'cache_dir_dill', 'cache_sql_mem', '
             'cache_dir_json', 'cache_file_src', 'cache_dir_z', 'cache_sql_file', 'cache_dir_src', 'none')
 
 
+def _with_replacement(pair):
+    case, pick = pair
+    if H.effective_algo(case) == 'no':
+        # the non-caching decorator holds a result only for the duration of a call; entries made resident by an explicit bulk load() are copies of
+        # archive entries and are dropped (not 'evicted') by the next call. After the archive was replaced or emptied by somebody else such a copy has
+        # no archive entry any more - not an eviction of a computed result: archive replacement / external deletion are not combined with it
+        return dict(case, ops=[op for op in case['ops'] if op[0] not in ('reattach', 'adel')])
+    if pick and H.backend_archived(case['backend']) and not case.get('attach_later') and not case.get('relpath'):
+        # constructed opening: fill and overflow (entries reach the archive), ask for the first one again (it comes back through a LOAD),
+        # replace the archive - or have somebody delete that entry from it - and overflow once more: what leaves memory now must be in the archive attached NOW
+        n = len(case['pool'])
+        mid = [['reattach']] if pick == 1 else [['adel', [0, 1]]]
+        case = dict(case, ops=[['sweep', 0, n], ['call', 0, 0, 0], ['call', 1, 0, 0]] + mid + [['sweep', 0, n], ['sweep', 0, n]] + list(case['ops']))
+    return case
+
+
 def strata(tier):
+    return [(e[0], st.tuples(e[1], st.sampled_from([0, 0, 1, 2])).map(_with_replacement)) if e[0] != 'unstorable-result' else e for e in _strata(tier)]
+
+
+def _strata(tier):
     return [('unstorable-result', unstorable_cases())] + G.strata_grid(
         algos=('lru', 'mru', 'lfu', 'rr', 'no'), maxsizes=(2, 1, 3, 5), purges=(False, True), backends=BACKENDS, families=('memarch', 'persist'),
         weights={'call': 14, 'burst': 1, 'load': 2, 'dump': 1, 'dumpk': 1, 'loadk': 1, 'clear': 1, 'clearkeep': 0,
-                 'arch_off': 1, 'arch_on': 2, 'awrite': 1},
+                 'arch_off': 1, 'arch_on': 2, 'awrite': 1, 'reattach': 1, 'adel': 1},
         max_ops=30 if tier == 'quick' else 60, pool=(3, 7), prefill_pct=10, attach_later_pct=25, relpath_pct=40)
 
 
@@ -52,6 +72,18 @@ def check_trace(case, tr):
             flags['late_attach'] += 1
         if s.kind == 'attach' and case.get('attach_later'):
             flags['attached_after_decoration'] = flags.get('attached_after_decoration', 0) + 1
+        if s.kind == 'reattach' and s.result == 'reattached':
+            # another archive is attached now: what only the previous one held is no longer 'in the archive'
+            flags['archive_replaced'] = flags.get('archive_replaced', 0) + 1
+            for k in list(computed):
+                if not has(s.post_mem or {}, k):
+                    del computed[k]
+        if s.kind == 'adel' and s.result == 'deleted':
+            # entries removed from the archive by somebody else are explicitly gone (unless still resident)
+            flags['archive_entry_deleted_externally'] = flags.get('archive_entry_deleted_externally', 0) + 1
+            for k in list(computed):
+                if not has(s.post_mem or {}, k) and not has(s.post_arch or {}, k):
+                    del computed[k]
         if s.kind in ('clear', 'clearkeep'):
             # memory-only results are explicitly cleared
             arch = s.post_arch or {}
@@ -200,6 +232,6 @@ def extra_passes(run, tier, shard, nshards):
     exhaustive_sweep(run, tier, shard, nshards, lambda case, tr: check_trace(case, tr)[0])
 
 
-REQUIRED_CLASSES = ['relative_dir_archive:new', 'chdir_away', 'archive_refused_victim', 'attached_after_decoration', 'evicted_to_archive', 'purged_to_archive', 'victim_was_loaded', 'late_attach',
+REQUIRED_CLASSES = ['archive_replaced', 'archive_entry_deleted_externally', 'relative_dir_archive:new', 'chdir_away', 'archive_refused_victim', 'attached_after_decoration', 'evicted_to_archive', 'purged_to_archive', 'victim_was_loaded', 'late_attach',
                     'eff_algo:lfu', 'eff_algo:mru', 'eff_algo:rr', 'eff_algo:no', 'module:safe']
 TRIGGERS = {}
